@@ -869,6 +869,20 @@ func gamma_p_derivative_imp(a, x float64) float64 {
 
 func gamma_p_second_derivative_imp(a, x float64) float64 {
   t := gamma_p_derivative_imp(a, x)
+  if x > 0.0 && t < 2.2250738585072014e-308 && a > 0.0 {
+    // the first derivative underflows (completely or into the subnormal
+    // range) although its product with (a-1)/x - 1 need not, use logs:
+    c := (a-1.0)/x - 1.0
+    if c == 0.0 || math.IsInf(c, 0) {
+      return (a-1.0)*t/x - t
+    }
+    v, _ := math.Lgamma(a)
+    r := math.Exp((a-1.0)*math.Log(x) - x - v + math.Log(math.Abs(c)))
+    if c < 0.0 {
+      r = -r
+    }
+    return r
+  }
   return (a-1.0)*t/x - t
 }
 
